@@ -234,6 +234,14 @@ FinalClauses(ev) ==
         "zero_length_never_sent", \E i \in DOMAIN queued[e] : queued[e][i].len = 0),
     C({"C09"}, "BothEndpointsCloseAfterTermination",
         (Pair /\ AnyTermReq /\ ~scen.faults) => closed[e]),
+    \* one real endpoint and a co-operative scripted peer: both SESS_TERM exchanged, every transfer of the endpoint
+    \* ended and finally acknowledged, no transfer of the peer open, everything the peer wrote acted on - the
+    \* endpoint closes whatever else the peer's last write contained
+    C({"C09"}, "TerminatedIdleEndpointCloses",
+        (~Pair /\ IsReal(e) /\ scen.quiesced /\ scen.cooperative /\ ~scen.faults /\ esc[e] = 0
+           /\ ws[e].term /\ hTerm[e] /\ ws[p].term /\ ws[p].cur = NONE /\ nH[e] = Len(wire[p])
+           /\ StartedIds(e) = EndedIds(e) /\ StartedIds(e) \subseteq FinalAckedIds(e))
+          => closed[e]),
     C({"C09"}, "CloseOrDisconnectLeavesNobodyHalfOpen",
         (Pair /\ AnyCloseReq) => closed[e]),
     C({"C09"}, "ExactlyOneSessTermPerSide", (Graceful /\ Est(e)) => ws[e].nTerm = 1),
